@@ -19,8 +19,9 @@ RULE = ('random netlists (1-4 inputs, 1-7 cells of NANGATE/SAED32/SAED90 with 1-
         '(a:b:c) () (a::) (::c) (:b:) (::) ..., INTERCONNECT per (driver, reader) pair, entries shuffled, CELL blocks split '
         '(repeated blocks per instance with different escapings, several top-level blocks, several DELAY sections, blocks '
         'without INSTANCE, unknown instances, TIMINGCHECK/header/comment noise). oracle streams keep one entry per array '
-        'coordinate (ground truth unambiguous); the overlap stream (several outputs per input pin, duplicates, all-zero '
-        'and negative interconnects) is model-vs-code only. distinct = (netlist, branchforks, SDF text); non-trivial = at '
+        'coordinate (ground truth unambiguous; negative IOPATH and INTERCONNECT values, all-zero interconnects and '
+        'interconnects that are not all-zero although max(max(delvals)) == 0 included); the overlap stream (several '
+        'outputs per input pin, duplicates) is model-vs-code only. distinct = (netlist, branchforks, SDF text); non-trivial = at '
         'least 3 entries and at least one non-zero ground-truth coordinate')
 
 TLIBS = ['NANGATE', 'SAED32', 'SAED90']
@@ -88,6 +89,22 @@ def rand_triple(rng, neg=False, p_empty=0.12):
     if r < 0.60: return [val(), val(), val()]
     form = rng.choice(['a::', '::c', ':b:', 'a:b:', ':b:c', 'a::c', '::'])
     return [val() if form[0] == 'a' else None, val() if 'b' in form else None, val() if form.endswith('c') else None]
+
+
+def lexmax_pattern(rng):
+    """value lists that are NOT all-zero although the largest element of the lexicographically larger list is 0
+    (the skip test `max(max(delvals)) == 0` of the tree before D34 dropped them)"""
+    v = lambda: -rng.choice([1, rng.randint(1, 999), rng.randint(1000, 30000)])
+    w = lambda: rng.randint(1, 9000)
+    return rng.choice([[[0, 0, 0], [v(), w(), w()]], [[v(), w(), w()], [0, 0, 0]], [[v(), 0, v()]], [[0, v(), 0]],
+                       [[v(), v(), v()]], [[], [v(), w(), None]], [[None, None, None], [v(), None, w()]],
+                       [[0, v(), w()], [0, 0, 0]], [[v(), v(), 0], [v(), 0, 0]]])
+
+
+def ic_skip_old(vals):
+    """the skip test of the tree before D34 on the generator's value lists"""
+    dv = [tr(vals[0]), tr(vals[-1])]
+    return max(max(dv)) == 0
 
 
 def tr(t):
@@ -251,9 +268,10 @@ def gen_case(rng, kind='oracle', scale_blocks=1.0):
             if overlap and rng.random() < 0.4: reps += 1
             for _ in range(reps):
                 nv = rng.choice([1, 1, 2])
-                neg = overlap and rng.random() < 0.3
+                neg = rng.random() < (0.3 if overlap else 0.2)     # negative delays are legal SDF (audit finding 3 / D34)
                 vals = [rand_triple(rng, neg=neg, p_empty=0.3 if overlap else 0.12) for _ in range(nv)]
-                if overlap and rng.random() < 0.15: vals = [[0, 0, 0]] if rng.random() < 0.5 else [[]]
+                if rng.random() < 0.15: vals = [[0, 0, 0]] if rng.random() < 0.5 else [[]]   # all-zero: skipped, truth 0
+                if rng.random() < 0.12: vals = lexmax_pattern(rng)
                 ic_entries.append({'sig': s, 'drv': info['driver'], 'dst': rd, 'vals': vals})
     # ---- blocks
     blocks = []   # {'insts': [...], 'sections': [[entry]], 'celltype':..}
@@ -340,8 +358,9 @@ def block_key(b):
     return b['insts'][0] if b['insts'] else None
 
 
-def truth_arrays(case, c, only_last=False):
-    """the generator's ground truth; only_last=True: what remains if only the last block of each raw name is kept"""
+def truth_arrays(case, c, only_last=False, old_skip=False):
+    """the generator's ground truth; only_last=True: what remains if only the last block of each raw name is kept;
+    old_skip=True: what remains if INTERCONNECT entries are dropped by the lexicographic-maximum test (before D34)"""
     L = len(c.lines)
     A = np.zeros((3, L, 2, 2)); B = np.zeros((3, L, 2, 2))
     kinds = {g['inst']: g['kind'] for g in case['gates']}
@@ -362,6 +381,7 @@ def truth_arrays(case, c, only_last=False):
                             A[d, l, ip, 0] = r[d] / 1000.0; A[d, l, ip, 1] = f[d] / 1000.0
                 else:
                     sig, dst = e['ic']
+                    if old_skip and ic_skip_old(e['vals']): continue
                     l = resolve_ic(c, case['bf'], sig, tuple(dst))
                     if l is None: continue
                     for ip in (0, 1):
@@ -426,6 +446,11 @@ def eval_case(case):
             if repeated and not isinstance(got, str) and got.shape == keep.shape and np.array_equal(got, keep):
                 obs['class'] = 'repeated-cell-block'
                 obs['explanation'] = 'result equals the ground truth of the LAST block of every instance name only'
+            elif (which == 'interconnects' and not isinstance(got, str) and got.shape == exp.shape
+                  and np.array_equal(got, truth_arrays(case, c, old_skip=True)[1])):
+                obs['class'] = 'interconnect-lexmax-skip'
+                obs['explanation'] = ('result equals the ground truth minus the entries for which max(max(delvals)) == 0 '
+                                      '(lexicographic list maximum) although not all their values are zero')
             else:
                 obs['class'] = 'sdf-annotation'
             return False, obs, ex
@@ -654,6 +679,11 @@ def describe(case):
     if any(len(b['sections']) > 1 for b in case['blocks']): tags.append('several-DELAY-sections')
     if any('ic' in e for e in ents): tags.append('interconnect')
     if any(v is not None and v < 0 for e in ents for t in e['vals'] for v in t): tags.append('negative-value')
+    ics = [e for e in ents if 'ic' in e]
+    if any(v is not None and v < 0 for e in ics for t in e['vals'] for v in t): tags.append('interconnect-negative-value')
+    if any(ic_skip_old(e['vals']) and any(tr(t) != [0, 0, 0] for t in e['vals']) for e in ics):
+        tags.append('interconnect-not-all-zero-with-lexmax-0')
+    if any(all(tr(t) == [0, 0, 0] for t in e['vals']) for e in ics): tags.append('interconnect-all-zero')
     return ents, tags
 
 
@@ -707,7 +737,10 @@ def run_case(ck, case, kind, mode, notes):
         if not ok:
             cls = obs.get('class', 'sdf-annotation')
             what = ('entries of all but the last CELL block of an instance name (or of all but the last top-level INTERCONNECT '
-                    'block) are not annotated' if cls == 'repeated-cell-block' else 'delay array differs from the ground truth')
+                    'block) are not annotated' if cls == 'repeated-cell-block' else
+                    'INTERCONNECT entries with a negative value whose lexicographically larger value list has maximum 0 are '
+                    'dropped although they are not all-zero' if cls == 'interconnect-lexmax-skip' else
+                    'delay array differs from the ground truth')
             ck.hist['violation:' + cls] += 1
             ck.violation(cls, f"DelayFile.{obs.get('call', 'iopaths')}(): {what}", case, obs, exp)
     else:
